@@ -361,6 +361,13 @@ Error BaseAssembler::embed_label_delta(const Label& label, const Label& base, si
   // If both labels are bound within the same section it means the delta can be calculated now.
   if (label_entry.is_bound() && base_entry.is_bound() && label_entry.section_id() == base_entry.section_id()) {
     uint64_t delta = label_entry.offset() - base_entry.offset();
+
+    // The delta is a signed quantity, it must fit into `data_size` bytes (the same test the expression path does
+    // when the relocation is applied).
+    if (ASMJIT_UNLIKELY(data_size < 8u && !EmitterUtils::is_encodable_offset_64(int64_t(delta), uint32_t(data_size * 8u)))) {
+      return report_error(make_error(Error::kInvalidDisplacement));
+    }
+
     writer.emit_value_le(delta, data_size);
   }
   else {
